@@ -30,7 +30,7 @@ func init() {
 		Title:    "Globs apply to exactly the matching objects and connections, even later ones",
 		Patterns: []string{"./d2ir", "./d2ast"},
 		Explanation: "Decides: (1) in matchPattern every search/prefix test compares operands that went through the same case normalisation (both lower-cased, value-level on SSA), and offsets are applied to the string searched (C07's index-provenance rule, run here too); (2) every `return true` of matchPattern is reached only after the reserved-keyword test failed (or for the empty pattern); " +
-			"(3) both recursive glob walkers (_doubleGlob, _tripleGlob) append a field only on the path where the reserved-keyword-and-unquoted test failed, and test Name against nil first; (4) in the glob cross-product loop that creates edges, createEdge2 is reached only on the false branch of the self-edge test (src == dst under a glob).",
+			"(3) both recursive glob walkers (_doubleGlob, _tripleGlob) append a field only on the path where the reserved-keyword-and-unquoted test failed, and test Name against nil first; (4) in the glob cross-product loop that creates edges, createEdge2 is reached only on the false branch of the self-edge test (src == dst under a glob). Also: consecutive blocks of d2ir that treat the two ends of a connection glob (conditions that are each other's image under Src↔Dst) have bodies that are each other's image under the same renaming.",
 		NotCovered: "lazy re-application of globs to later declarations and precedence between globs and explicit keys (semantic), filters",
 		Technique:  "static analysis: SSA normalisation symmetry, guard-dominance on go/cfg, sibling agreement",
 		Run:        runC12,
@@ -41,7 +41,7 @@ func init() {
 		Patterns: []string{"./d2ir", "./d2parser", "./d2ast"},
 		Explanation: "Decides: (1) who-may-call — the parser's parseSubstitution is called only from functions that do not build single-quoted or block strings, and where the caller has an inKey flag the call is on the !inKey branch (single-quoted text and keys are never substituted); " +
 			"(2) in resolveSubstitutions the field found for a variable is dereferenced only after a nil test whose failing branch reports an error and returns (undefined variables are errors, in both the unquoted and the double-quoted branch); " +
-			"(3) scope order — the vars stack is built by prepending the inner vars map and every lookup loop walks it from the front and stops at the first hit.",
+			"(3) scope order — the vars stack is built by prepending the inner vars map and every lookup loop walks it from the front and stops at the first hit. Also: a spread that replaces one element of a list by several (`append(append(S[:i], ins…), S[i+1:]...)`) inserts no more than the gap or copies the prefix first, so it cannot overwrite the elements it still has to copy.",
 		NotCovered: "equality with textual replacement (coalescing, quoting of the substituted text)",
 		Technique:  "static analysis: who-may-call on the typed call graph, guard-dominance, push/lookup direction agreement",
 		Run:        runC13,
@@ -53,7 +53,7 @@ func init() {
 		Explanation: "Decides copy-before-mutate and restore-after-remove shapes in d2ir: (1) in overlay and overlayClasses every map handed to OverlayMap or DeleteField as the destination derives from a Copy/CopyBase made in that function (its nearest definition is a copy), never from the parameter/base itself; " +
 			"(2) CopyBase puts back every board field it temporarily removes from the base (each DeleteField result is re-appended under a nil test before the function returns) and copies after removing them, so boards are not copied into their children; " +
 			"(3) a forked glob context owns its applied-sets: copyApplied assigns a fresh map to every map-typed field of globContext on every path (the struct copy made by copy() shares them otherwise); " +
-			"(4) a mutating walk towards the root stops at the board boundary: in DeleteField(Key) the step to the parent map is reached only when the current map is not a board root (otherwise `obj: null` in a scenario deletes connections of its base).; every glob context forked for a scenario or a step in compileMap calls copyApplied (a step that shared the applied sets of its base marked the base's objects as done).",
+			"(4) a mutating walk towards the root stops at the board boundary: in DeleteField(Key) the step to the parent map is reached only when the current map is not a board root (otherwise `obj: null` in a scenario deletes connections of its base).; every glob context forked for a scenario or a step in compileMap calls copyApplied (a step that shared the applied sets of its base marked the base's objects as done). Also: loops of one d2ir function that climb the map tree with the same step stop under the same conditions (the board boundary).",
 		NotCovered: "what a board shows (inheritance semantics per board kind), glob-context copying per board kind",
 		Technique:  "static analysis: value provenance of destination arguments, paired remove/re-append on the typed AST",
 		Run:        runC15,
